@@ -780,7 +780,7 @@ class HeapExec(NumExec):
             if isinstance(f, ast.Attribute) and ast.unparse(f).startswith("settings.logger."):
                 return [(p, None)]
             # list mutation through a field:  x.f.append(v) / x.f.clear() / x.f.extend(seq)
-            if isinstance(f, ast.Attribute) and f.attr in ("append", "clear", "extend") and isinstance(f.value, ast.Attribute):
+            if isinstance(f, ast.Attribute) and f.attr in ("append", "clear", "extend", "insert") and isinstance(f.value, ast.Attribute):
                 owner = s.ev(p, f.value.value)
                 cur = s.attr_of(p, owner, f.value.attr, f.value)
                 if isinstance(cur, SeqV) and isinstance(owner, RefV):
@@ -789,6 +789,11 @@ class HeapExec(NumExec):
                         raise Unsupported(f"list mutation through a property at line {n.lineno}")
                     if f.attr == "clear":
                         new = z3.Empty(cur.q.sort())
+                    elif f.attr == "insert":
+                        if not (len(n.value.args) == 2 and isinstance(n.value.args[0], ast.Constant) and n.value.args[0].value == 0):
+                            raise Unsupported(f"list.insert at another index than the constant 0 at line {n.lineno}")
+                        v = s.ev(p, n.value.args[1])
+                        new = z3.Concat(z3.Unit(s.unwrap(cur.kind, v, n)), cur.q)
                     elif f.attr == "append":
                         v = s.ev(p, n.value.args[0])
                         new = z3.Concat(cur.q, z3.Unit(s.unwrap(cur.kind, v, n)))
@@ -1049,7 +1054,7 @@ class HeapExec(NumExec):
                                     out |= set(s.setter_effects[(c, a)])
                 if isinstance(n, ast.Call) and isinstance(n.func, ast.Attribute):
                     a = n.func.attr
-                    if a in ("append", "clear", "extend") and isinstance(n.func.value, ast.Attribute):
+                    if a in ("append", "clear", "extend", "insert") and isinstance(n.func.value, ast.Attribute):
                         out |= {k for k in s.schema.fields if k.endswith("." + n.func.value.attr)}
                     for q, c in s.contracts.items():
                         if q.endswith("." + a):
